@@ -29,15 +29,24 @@ META = dict(
     model_run='PG.Model.SymCoreTyped.run',
     runner_name='SymCoreTyped',
     model_targets=['Model/SymCoreTyped.vo'],
-    technique='(under construction)',
+    technique=('Coq proofs over an executable model of the typed write path (SymCore forests whose nodes carry a reference into a table of Typing.spec; '
+               'formalise = Typing.apply of the field spec, then store; the size checks of list.py) + step-level differential correspondence against typed '
+               'pg.Dict / pg.List / pg.Object on generated (spec table, forest, history) cases and a systematic write-path x spec-kind x value-class sweep + '
+               'a direct oracle that re-applies every bound value spec to the stored members with the real library after every step'),
     design_ref='DESIGN.md §5 C03, design/C03.md',
-    level_text='(under construction)',
-    level_note='(under construction)',
-    rule='',
-    trusted_base=[],
-    assumptions=[],
-    not_applicable='the C03 check is being built (model and proofs in progress)',
+    level_text='',
+    level_note='',
+    rule=('a case is (spec table, class schemas, roots, list of (scope stack, operation)); distinct by canonical text; non-trivial when a mutating operation on a forest '
+          'with a schema-carrying node succeeds or is rejected with a type / value / key error (or, for a case without operations, a typed root is constructed)'),
+    trusted_base=['extraction: ExtrOcamlBasic only; ocaml/main.ml lexer/printer; cross-checked against vm_compute on a sample',
+                  'implementation driver harness/props/symcore_driver.py + harness/props/c03.py (typed roots, snapshots with bound specs, the scope guard) and spec rendering harness/props/c04.py'],
+    assumptions=['values written into spec-checked containers are plain Python values (None, MISSING_VALUE, bool, int, float k/64, short str, tuples, class instances, nested list/dict); '
+                 'symbolic values handed to a typed container, slice assignment, containers held by frozen fields and Dict/List specs inside Tuple specs are covered by the oracle only',
+                 'user transforms, regular expressions, Callable/Type specs, forward references are outside the model (as in C04)'],
 )
+META['level_text'] = ('Theorems over Model/SymCoreTyped.v (see design/C03.md for the list and which are partial). Tie: the model is run against the implementation on every generated case '
+                      'and after every step the snapshots (kind, flags, bound spec, keys, values) must be identical; the direct oracle checks the five clauses of the property on the live objects.')
+META['level_note'] = ('Trusted: Coq kernel; extraction cross-checked against vm_compute; the drivers and generators. Modelled, not verified: the Python code itself (tied by the correspondence only).')
 
 LSETSLICE = 16
 OP_NAMES = dict(D.OP_NAMES); OP_NAMES[LSETSLICE] = 'List.__setitem__(slice)'
@@ -337,7 +346,16 @@ def check_member(node, key, v, field, partial, where, hits):
   except (TypeError, ValueError, KeyError) as e:
     miss = isinstance(v, P.utils.MissingValue)
     clause = 'required-missing' if miss else 'member-rejected'
-    hits.append((clause, field_kind(field), '%s: member %r = %s is rejected by its value spec %s (%s: %s)' % (
+    kind_ = field_kind(field)
+    if isinstance(spec, P.typing.Union) and not miss:
+      # the value is what one candidate of the union hands out, but the union itself dispatches it to another candidate
+      for c in spec.candidates:
+        try:
+          if same_value_unordered(plain(c.apply(plain(v), allow_partial=partial)), pv):
+            kind_ = 'Union-dispatch'
+        except Exception:     # pylint: disable=broad-except
+          pass
+    hits.append((clause, kind_, '%s: member %r = %s is rejected by its value spec %s (%s: %s)' % (
         where, key, P.format(v, compact=True)[:80], spec.format(compact=True)[:120], type(e).__name__, str(e)[:100])))
     return
   except Exception as e:      # pylint: disable=broad-except
@@ -357,6 +375,9 @@ def check_node(impl, x, where, hits):
   if spec is None:
     return
   partial = bool(x.allow_partial) or impl.partial_used
+  if impl.spec_ref(x) == -1:
+    hits.append(('schema-changed', '-', '%s: the value spec the node carries is none of the specs of the case any more (a write changed the schema itself): %s' % (
+        where, spec.format(compact=True)[:160])))
   if isinstance(x, P.List):
     n = len(x)
     if n < spec.min_size:
@@ -423,7 +444,22 @@ class Oracle:
     self.hits = []            # (signature, what, step)
     self.failed = False
     self.stats = {}
+    self.by_reference = False
   def prepare(self, impl, scope, op):
+    # does the operation hand a symbolic value to a container that checks its members (outside the model, see op_supported)
+    self.by_reference = False
+    try:
+      for x, v in written(impl, op):
+        while v[0] == 2: v = v[1]
+        if x is not None and typed_members(impl, x):
+          if (v[0] == 0 and v[1][0] == 1) or (v[0] == 1 and D.is_sym(impl.at((v[1], v[2])))):
+            self.by_reference = True
+      if op[0] in (D.LIMUL, D.LMUL, D.LADD, D.LCOPY, D.CLONE, D.DCOPY, D.LEXTEND, D.LIADD):
+        t = impl.at(op[1])
+        if D.is_sym(t) and typed_members(impl, t) and any(D.is_sym(v) for _, v in D.sym_children(t)) and op[0] in (D.LIMUL, D.LMUL, D.LADD, D.LCOPY):
+          self.by_reference = True
+    except Exception:     # pylint: disable=broad-except
+      pass
     return impl.snapshot()
   def after_init(self, impl, inits):
     for clause, disc, detail in check_forest(impl):
@@ -450,9 +486,9 @@ class Oracle:
       else:
         r = op[1][0]
         # (a root moved into the target by an earlier element of the batch has left its slot)
-        if any(a and a != b for i, (b, a) in enumerate(zip(before, after)) if i != r):
+        if any(a and b and a != b for i, (b, a) in enumerate(zip(before, after)) if i != r):      # (moved in / come back: not a change of content)
           hits.append(('rejected-not-stored', 'other-roots', 'a rejected batch changed a root it does not address'))
-    elif res[0] == 1 and res[1] not in (D.ERR_NA, D.ERR_WRITE, D.ERR_INDEX, D.ERR_KEY, D.ERR_VALUE, D.ERR_TYPE):
+    elif res[0] == 1 and res[1] not in (D.ERR_NA, D.ERR_WRITE, D.ERR_INDEX, D.ERR_KEY, D.ERR_VALUE, D.ERR_TYPE, D.ERR_ASSERT):
       st['other_errors'] = st.get('other_errors', 0) + 1
       hits.append(('unexpected-exception', type(exc).__name__, 'the call raised %s: %s' % (type(exc).__name__, str(exc)[:120])))
     elif res[0] == 1 and res[1] in (D.ERR_WRITE, D.ERR_INDEX) and op[0] not in BATCH_OPS:
@@ -462,7 +498,20 @@ class Oracle:
     if hits:
       self.failed = True
       clause, disc, detail = hits[0]
-      self.hits.append(('C03/%s/%s/%s' % (clause, name, disc), '%s: after %s%s, %s' % (clause, name, '' if res[0] == 0 else ' raised ' + type(exc).__name__, detail), n))
+      what = '%s: after %s%s, %s' % (clause, name, '' if res[0] == 0 else ' raised ' + type(exc).__name__, detail)
+      self.hits.append((self.signature(impl, scope, op, res, clause, disc, name), what, n))
+
+  def signature(self, impl, scope, op, res, clause, disc, name):
+    """(property, clause, operation kind, discriminator).  Two families are keyed by their cause rather than by the symptom, because
+    one defect shows up under many clauses and operations: a symbolic value (a reference to a pg.Dict / pg.List / pg.Object, or a
+    constructed one) written into a spec-checked container, and a write below the container held by a frozen field."""
+    if self.by_reference:
+      return 'C03/symbolic-value/%s/%s' % ('required-missing' if clause == 'required-missing' else 'other-clause', 'rejected' if res[0] == 1 else 'accepted')
+    if disc == 'Union-dispatch':
+      return 'C03/member-not-fixpoint/apply/Union-result-dispatches-to-another-candidate'
+    if disc.endswith('.frozen') and clause in ('member-rejected', 'frozen-differs', 'member-not-fixpoint'):
+      return 'C03/frozen-differs/deep-write/container-held-by-frozen-field'
+    return 'C03/%s/%s/%s' % (clause, name, disc)
 
 # ---- generators ----------------------------------------------------------------------------------------
 def ek(k): return D.enc_key(k)
@@ -902,8 +951,323 @@ def op_supported(impl, scope, op):
       t = impl.at(op[1])
     except D.NotApplicable:
       return True
+    if not D.is_sym(t):
+      return True
     if tag in (D.LIMUL, D.LMUL, D.LADD, D.LCOPY) and typed_members(impl, t) and any(D.is_sym(v) for _, v in D.sym_children(t)):
       return False
     if tag in (D.LMUL, D.LADD, D.LCOPY, D.DCOPY, D.CLONE) and (scope_restrictive(scope) or scope_partial(scope) is not None) and any_typed(impl, t):
       return False
   return True
+
+# ---- hand-written cases and the systematic sweep -------------------------------------------------------------
+class Table:
+  """Spec table of a case: the three class schemas first, then the given specs, each followed by the container specs inside it."""
+  def __init__(self, class_specs=(None, None, None)):
+    self.trees, self.lines = [], {}
+    self.cls = [self.add(default_class_schema(i) if s is None else self.tree(s)) for i, s in enumerate(class_specs)]
+  @staticmethod
+  def tree(spec):
+    t = spec if isinstance(spec, list) else c04.render(spec)
+    c = c04.canon(t)
+    if c is None: raise ValueError('spec is not constructible: %r' % (t,))
+    return c
+  def add(self, spec):
+    t = self.tree(spec)
+    l = trlib.to_line(t)
+    if l not in self.lines:
+      self.lines[l] = len(self.trees) + 1; self.trees.append(t)
+      for s in container_specs(t):
+        ls = trlib.to_line(s)
+        if ls not in self.lines:
+          self.lines[ls] = len(self.trees) + 1; self.trees.append(s)
+    return self.lines[l]
+
+NS = [[], [], [], []]
+def PV(v): return [3, c04.render_value(v)]
+def MISSING(): return pg().MISSING_VALUE
+def troot(kind, ref, value, sealed=0, aw=1, partial=0): return [1, kind, ref, [sealed, aw, partial], c04.render_value(value)]
+def mkcase(tab, roots, steps, quirks=()): return [list(quirks), tab.trees, tab.cls, roots, [list(s) for s in steps]]
+def Pp(r, *keys): return [r, [ek(k) for k in keys]]
+
+def corpus():
+  """name -> (case, guard).  Witnesses of the repaired findings (they must hold now) and corner cases; guard False = outside the
+  vocabulary of the model (run for the oracle only)."""
+  T = pg().typing
+  out = {}
+  tb = Table(); L = tb.add(T.List(T.Int(), min_size=1, max_size=3))
+  out['list-grows-past-max_size'] = (mkcase(tb, [troot(1, L, [1, 2, 3])], [
+      (NS, [D.REBIND, Pp(0), [[[ek(0)], [2, PV(9)]]]]), (NS, [D.REBIND, Pp(0), [[[ek(3)], PV(9)]]]), (NS, [D.LAPPEND, Pp(0), PV(4)]),
+      (NS, [D.LINSERT, Pp(0), 0, PV(4)]), (NS, [D.LEXTEND, Pp(0), [PV(4)]]), (NS, [D.LIADD, Pp(0), [PV(4)]]), (NS, [D.LIMUL, Pp(0), 2]),
+      (NS, [D.LADD, Pp(0), [PV(4)]]), (NS, [D.LMUL, Pp(0), 2])]), True)
+  out['slice-assignment-past-max_size'] = (mkcase(tb, [troot(1, L, [1, 2])], [
+      (NS, [LSETSLICE, Pp(0), [[0], [1], []], [PV(5), PV(6), PV(7), PV(8)]])]), False)
+  out['list-shrinks-below-min_size'] = (mkcase(tb, [troot(1, L, [1]), troot(1, L, [1]), troot(1, L, [1], partial=1)], [
+      (NS, [D.LDEL, Pp(0), 0]), (NS, [D.LPOP, Pp(1), []]), (NS, [D.LREMOVE, Pp(0), [2, 1]]), (NS, [D.LCLEAR, Pp(0)]), (NS, [D.LIMUL, Pp(0), 0]),
+      (NS, [D.REBIND, Pp(2), [[[ek(0)], PV(MISSING())]]]), (NS, [D.LSET, Pp(2), 0, PV(MISSING())])]), True)
+  tb2 = Table(); L2 = tb2.add(T.List(T.Int(), min_size=2))
+  off = D.sc(notify=[False])
+  out['missing-placeholders-below-min_size'] = (mkcase(tb2, [troot(1, L2, [1, 2, 3], partial=1)], [
+      (off, [D.LSET, Pp(0), 0, PV(MISSING())]), (off, [D.LSET, Pp(0), 1, PV(MISSING())]), (NS, [D.LAPPEND, Pp(0), PV(4)])]), True)
+  tb3 = Table(); Dd = tb3.add(T.Dict([('a', T.Dict([('x', T.Int())])), ('b', T.Int(default=1))]))
+  out['rejected-assignment-detaches-old-child'] = (mkcase(tb3, [troot(0, Dd, {'a': {'x': 1}})], [
+      (NS, [D.DSET, Pp(0), 0, ek('a'), PV(5)]), (NS, [D.DSET, Pp(0), 1, ek('a'), PV({'x': 'bad'})]), (NS, [D.DPOP, Pp(0), ek('a'), []]),
+      (NS, [D.DDEL, Pp(0), 0, ek('a')]), (NS, [D.REBIND, Pp(0), [[[ek('a')], PV(MISSING())]]]), (NS, [D.DUPDATE, Pp(0), [[ek('b'), PV(2)], [ek('a'), PV(7)]]])]), True)
+  out['clear-drops-content-then-raises'] = (mkcase(tb3, [troot(0, Dd, {'a': {'x': 1}, 'b': 3}), troot(0, Dd, {'a': {'x': 1}}, aw=0), troot(0, Dd, {'a': {'x': 1}}, partial=1)], [
+      (NS, [D.DCLEAR, Pp(0)]), (NS, [D.DCLEAR, Pp(1)]), (NS, [D.DCLEAR, Pp(2)]), (D.sc(aw=[False]), [D.DCLEAR, Pp(2)]), (D.sc(partial=[True]), [D.DCLEAR, Pp(0)])]), True)
+  tbc = Table((T.Dict([('x', T.Int(default=0)), ('y', T.Dict([('b', T.Int(default=0))]))]), None, None))
+  out['reset-to-default-stores-the-default-object'] = (mkcase(tbc, [troot(2, tbc.cls[0], {'y': {'b': 5}})], [
+      (NS, [D.REBIND, Pp(0), [[[ek('y')], PV(MISSING())]]]), (NS, [D.DSET, Pp(0, 'y'), 0, ek('b'), PV(7)]), (NS, [D.CLONE, Pp(0), 0]),
+      (NS, [D.REBIND, Pp(1), [[[ek('y')], PV(MISSING())]]])]), True)
+  tb4 = Table(); Tt = tb4.add(T.Dict([('t', T.Tuple(T.Int())), ('u', T.Tuple([T.Int(), T.Str()]).noneable())])); Di = tb4.add(T.Dict([('x', T.Int())]))
+  out['typed-dict-assigned-to-a-variable-length-tuple-field'] = (mkcase(tb4, [troot(0, Tt, {'t': (1,)}), troot(0, Di, {'x': 1})], [
+      (NS, [D.DSET, Pp(0), 0, ek('t'), [1, 1, []]]), (NS, [D.DSET, Pp(0), 0, ek('u'), [1, 1, []]])]), False)
+  tb5 = Table(); Un = tb5.add(T.Dict([('a', T.Union([T.Int(min_value=0), T.Str(), T.List(T.Int(), max_size=2)]).noneable()), (pg().typing.StrKey(), T.Float(max_value=2.5))]))
+  out['union-and-dynamic-keys'] = (mkcase(tb5, [troot(0, Un, {'a': 1})], [
+      (NS, [D.DSET, Pp(0), 0, ek('a'), PV('s')]), (NS, [D.DSET, Pp(0), 0, ek('a'), PV([1, 2])]), (NS, [D.DSET, Pp(0), 0, ek('a'), PV([1, 2, 3])]),
+      (NS, [D.DSET, Pp(0), 0, ek('a'), PV(-1)]), (NS, [D.DSET, Pp(0), 0, ek('q'), PV(1)]), (NS, [D.DSET, Pp(0), 0, ek('q'), PV(3.0)]),
+      (NS, [D.DSET, Pp(0), 0, ek(3), PV(1)]), (NS, [D.DDEL, Pp(0), 0, ek('q')]), (NS, [D.DDEL, Pp(0), 0, ek('a')]), (NS, [D.LAPPEND, Pp(0, 'a'), PV(1)])]), True)
+  return out
+
+def open_witnesses():
+  """name -> case (run without the guard): the open findings, replayed at the start of every run."""
+  T = pg().typing
+  out = {}
+  tb = Table(); Fz = tb.add(T.Dict([('a', T.Dict([('b', T.Int())]).freeze({'b': 1})), ('l', T.List(T.Int()).freeze([1]))]))
+  out['frozen-container-written-in-depth'] = mkcase(tb, [troot(0, Fz, {})], [(NS, [D.DSET, Pp(0, 'a'), 0, ek('b'), PV(2)])])
+  tb2 = Table(); Di = tb2.add(T.Dict([('y', T.Dict([('b', T.Bool()), ('c', T.Int(default=1))]))]))
+  out['spec-bound-before-validation'] = mkcase(tb2, [troot(0, Di, {'y': {'b': True}}), [0, D.mk({'c': 2})]], [(NS, [D.DSET, Pp(0), 0, ek('y'), [1, 1, []]])])
+  tb3 = Table(); An = tb3.add(T.Dict([('x', T.Any())])); Pa = tb3.add(T.Dict([('c', T.Int()), ('b', T.Bool(default=True))]))
+  out['partial-flag-overridden'] = mkcase(tb3, [troot(0, An, {'x': 1}), troot(0, Pa, {}, partial=1)], [(NS, [D.DSET, Pp(0), 0, ek('x'), [1, 1, []]])])
+  tb4 = Table(); Un = tb4.add(T.Dict([('a', T.Union([T.Enum(True, [1, 'a']).freeze(), T.Bool().freeze(False)]))]))
+  out['union-result-dispatches-to-another-candidate'] = mkcase(tb4, [troot(0, Un, {}, partial=1)], [(NS, [D.DSET, Pp(0), 0, ek('a'), PV(1.0)])])
+  return out
+
+def sweep_kinds():
+  """(name, value spec) for the member under test: every spec class, with ranges / sizes / modifiers."""
+  T = pg().typing
+  return [
+      ('Bool', T.Bool()), ('Int', T.Int(min_value=0, max_value=5)), ('Float', T.Float(min_value=0.0, max_value=2.5)), ('Str', T.Str()),
+      ('Enum-str', T.Enum('a', ['a', 'b'])), ('Enum-num', T.Enum(MISSING(), [1, 2.5])), ('List', T.List(T.Int(min_value=0), min_size=1, max_size=2)),
+      ('Tuple-fixed', T.Tuple([T.Int(), T.Str()])), ('Tuple-var', T.Tuple(T.Int(), min_size=1, max_size=2)),
+      ('Dict', T.Dict([('p', T.Int(max_value=5)), ('q', T.Str(default='s'))])), ('Dict-dyn', T.Dict([(T.StrKey(), T.Int())])), ('Dict-free', T.Dict()),
+      ('Object', T.Object(c04.A)), ('Union', T.Union([T.Int(min_value=0), T.Str()])), ('Union-list', T.Union([T.Bool(), T.List(T.Str(), max_size=1)])),
+      ('Any', T.Any()), ('Int-noneable', T.Int(max_value=5).noneable()), ('Int-default', T.Int(default=3, min_value=1)),
+      ('Int-frozen', T.Int(min_value=1).freeze(3)), ('Float-noneable-default', T.Float().noneable()), ('Enum-none', T.Enum(None, ['a', None])),
+      ('List-nested', T.List(T.Dict([('p', T.Float())]), max_size=2)), ('Dict-nested', T.Dict([('p', T.Dict([('r', T.Int(default=1))])), ('l', T.List(T.Int(), default=[]))])),
+  ]
+
+def sweep_cases(rng, per_kind=6):
+  """Every write path of every container form x every member spec x {valid values, each kind of rejected value}: one root, one operation.
+  -> [(label, case)]"""
+  T = pg().typing
+  out = []
+  for kname, k in sweep_kinds():
+    ktree = Table.tree(k)
+    kspec = c04.build(ktree)
+    good, bad = [], []
+    for v in c04.values_for(ktree, rng, limit=30):
+      (good if c04.accepts(kspec, v, False) else bad).append(v)
+    good = [v for v in good if v != [1]]
+    if not good: continue
+    rng.shuffle(bad)
+    vals = [('valid', v) for v in good[:2]] + [('invalid', v) for v in bad[:per_kind]] + [('missing', [1])]
+    g0 = good[0]
+    # --- a Dict with a declared member, and one with a dynamic member
+    for form in ('const', 'dyn'):
+      tb = Table()
+      sp = T.Dict([('a', copy.deepcopy(k)), ('b', T.Int(default=0))]) if form == 'const' else T.Dict([(T.StrKey(), copy.deepcopy(k)), ('b', T.Int(default=0))])
+      try:
+        ref = tb.add(sp)
+      except ValueError:
+        continue
+      for partial in (0, 1):
+        root = [1, 0, ref, [0, 1, partial], [8, [[S('a'), g0]]]]
+        for cls, v in vals:
+          val = [3, v]
+          for path, op in (('setitem', [D.DSET, Pp(0), 0, ek('a'), val]), ('setattr', [D.DSET, Pp(0), 1, ek('a'), val]),
+                           ('setdefault', [D.DSETDEFAULT, Pp(0), ek('z' if form == 'dyn' else 'a'), val]), ('update', [D.DUPDATE, Pp(0), [[ek('b'), PV(1)], [ek('a'), val]]]),
+                           ('ior', [D.DIOR, Pp(0), [[ek('a'), val]]]), ('rebind', [D.REBIND, Pp(0), [[[ek('a')], val], [[ek('b')], PV(2)]]]),
+                           ('setitem-undeclared', [D.DSET, Pp(0), 0, ek('zz'), val])):
+            if partial and cls == 'invalid' and path not in ('setitem', 'rebind'): continue
+            out.append(('Dict-%s/%s/%s/%s%s' % (form, path, kname, cls, '/partial' if partial else ''), mkcase(tb, [root], [(NS, op)])))
+        for path, op in (('delitem', [D.DDEL, Pp(0), 0, ek('a')]), ('pop', [D.DPOP, Pp(0), ek('a'), []]), ('clear', [D.DCLEAR, Pp(0)]), ('popitem', [D.DPOPITEM, Pp(0)]),
+                         ('copy', [D.DCOPY, Pp(0)]), ('clone', [D.CLONE, Pp(0), 1])):
+          out.append(('Dict-%s/%s/%s%s' % (form, path, kname, '/partial' if partial else ''), mkcase(tb, [root], [(NS, op)])))
+    # --- a List of such members
+    tb = Table()
+    try:
+      ref = tb.add(T.List(copy.deepcopy(k), min_size=1, max_size=3))
+    except ValueError:
+      ref = None
+    if ref is not None:
+      for partial in (0, 1):
+        for n0 in (1, 3):
+          root = [1, 1, ref, [0, 1, partial], [6, [g0] * n0]]
+          for cls, v in vals:
+            val = [3, v]
+            for path, op in (('setitem', [D.LSET, Pp(0), 0, val]), ('append', [D.LAPPEND, Pp(0), val]), ('insert', [D.LINSERT, Pp(0), 0, val]),
+                             ('extend', [D.LEXTEND, Pp(0), [[3, g0], val]]), ('iadd', [D.LIADD, Pp(0), [val]]), ('add', [D.LADD, Pp(0), [val]]),
+                             ('rebind-replace', [D.REBIND, Pp(0), [[[ek(-1)], val]]]), ('rebind-insert', [D.REBIND, Pp(0), [[[ek(0)], [2, val]]]]),
+                             ('rebind-append', [D.REBIND, Pp(0), [[[ek(n0)], val]]])):
+              if (partial or n0 == 3) and cls == 'invalid' and path not in ('setitem', 'append'): continue
+              out.append(('List/%s/%s/%s/len%d%s' % (path, kname, cls, n0, '/partial' if partial else ''), mkcase(tb, [root], [(NS, op)])))
+          for path, op in (('delitem', [D.LDEL, Pp(0), 0]), ('pop', [D.LPOP, Pp(0), []]), ('clear', [D.LCLEAR, Pp(0)]), ('imul', [D.LIMUL, Pp(0), 2]), ('imul0', [D.LIMUL, Pp(0), 0]),
+                           ('mul', [D.LMUL, Pp(0), 2]), ('copy', [D.LCOPY, Pp(0)]), ('reverse', [D.LREVERSE, Pp(0)]), ('clone', [D.CLONE, Pp(0), 0])):
+            out.append(('List/%s/%s/len%d%s' % (path, kname, n0, '/partial' if partial else ''), mkcase(tb, [root], [(NS, op)])))
+    # --- an Object with such a field
+    try:
+      tb = Table((T.Dict([('x', copy.deepcopy(k)), ('y', T.Int(default=0))]), None, None))
+    except ValueError:
+      continue
+    for partial in (0, 1):
+      root = [1, 2, tb.cls[0], [0, 1, partial], [8, [[S('x'), g0]]]]
+      for cls, v in vals:
+        val = [3, v]
+        for path, op in (('setattr', [D.OSET, Pp(0), ek('x'), val]), ('rebind', [D.REBIND, Pp(0), [[[ek('y')], PV(1)], [[ek('x')], val]]])):
+          out.append(('Object/%s/%s/%s%s' % (path, kname, cls, '/partial' if partial else ''), mkcase(tb, [root], [(NS, op)])))
+        # construction with this value
+        out.append(('Object/init/%s/%s%s' % (kname, cls, '/partial' if partial else ''), mkcase(tb, [[1, 2, tb.cls[0], [0, 1, partial], [8, [[S('x'), v]]]]], [])))
+      out.append(('Object/init-unexpected/%s' % kname, mkcase(tb, [[1, 2, tb.cls[0], [0, 1, partial], [8, [[S('x'), g0], [S('w'), [3, 1]]]]]], [])))
+      out.append(('Object/init-missing/%s' % kname, mkcase(tb, [[1, 2, tb.cls[0], [0, 1, partial], [8, []]]], [])))
+  return out
+
+# ---- the check ---------------------------------------------------------------------------------------------------
+ERR_NAMES = {1: 'WritePermissionError', 2: 'KeyError', 3: 'IndexError', 4: 'TypeError', 5: 'ValueError', 6: 'AssertionError', 7: 'AttributeError',
+             9: 'other', 97: 'hang', 99: 'not-applicable'}
+
+def describe_diff(case, a, b):
+  d = dict(case=trlib.to_line(case)[:3000])
+  if a is None or b is None or not isinstance(b, list) or len(b) != 3:
+    d['difference'] = 'no outcome from %s' % ('the implementation' if a is None else 'the model')
+    return d
+  if a[0] != b[0]:
+    d.update(difference='construction outcomes', implementation=a[0], model=b[0]); return d
+  if a[1] != b[1]:
+    d['difference'] = 'initial forest'; return d
+  for n, (x, y) in enumerate(zip(a[2], b[2])):
+    if x != y:
+      op = case[4][n][1]
+      d.update(step=n, op=OP_NAMES.get(op[0], op[0]), differs='result' if x[0] != y[0] else 'snapshot',
+               implementation=trlib.to_line(x[0] if x[0] != y[0] else x[1])[:1200], model=trlib.to_line(y[0] if x[0] != y[0] else y[1])[:1200])
+      return d
+  return d
+
+def py_snippet(case, guard=True):
+  return ('import sys; sys.path[:0] = ["/verif", "/repo"]\nfrom harness.props import c03\nfrom harness.lib import tr\n'
+          'case = tr.parse_line(%r)\norc = c03.Oracle()\nc03.run_case(case, after_step=orc, after_init=orc.after_init, guard=%r)\nprint(orc.hits)\n'
+          % (trlib.to_line(case), guard))
+
+def spec_kinds_of(case):
+  ks = set()
+  for t in case[1]:
+    walk_spec(t, lambda s, it: ks.add(c04.KIND[s[0]] + ('.frozen' if s[-1][2] else '') + ('.default' if s[-1][1] else '') + ('.noneable' if s[-1][0] else '')))
+  return ks
+
+def run_one(ctx, case, kind, guard, impl_outs, sample_ok=True):
+  """Runs one case on the implementation with the oracle attached; records hits and histograms.  -> outcome tree or None"""
+  orc = Oracle()
+  try:
+    out = run_case(case, after_step=orc, after_init=orc.after_init, guard=guard)
+  except Exception as e:       # the driver itself failed: fail closed
+    out = None
+    ctx.broken.append(dict(kind='driver-crash', name=type(e).__name__, detail=repr(e)[:300] + ' on ' + trlib.to_line(case)[:600]))
+  for sig, what, step in orc.hits:
+    ctx.hit(sig, what, dict(case=trlib.to_line(case), step=step, guard=guard, snippet=py_snippet(case, guard)))
+  for k, v in orc.stats.items():
+    ctx.extra.setdefault('oracle_stats', {}); ctx.extra['oracle_stats'][k] = ctx.extra['oracle_stats'].get(k, 0) + v
+  nontrivial = False
+  if out is not None:
+    for init in out[0]:
+      ctx.hist('construction', 'ok' if init == 0 else ERR_NAMES.get(init, init))
+    for (sc_, op), (res, snap) in zip(case[4], out[2]):
+      typed = False
+      for r in snap:
+        if r and r[0][3][3] != 0: typed = True
+      ctx.hist('operations', OP_NAMES.get(op[0], op[0]))
+      ctx.hist('outcomes', 'ok' if res[0] == 0 else ERR_NAMES.get(res[1], res[1]))
+      ctx.hist('scopes', 'none' if not any(sc_) else ('partial ' if sc_[3] else '') + ('other' if any(sc_[:3]) else ''))
+      if op[0] in D.MUTATING and typed and (res[0] == 0 or res[1] in SCHEMA_ERRORS):
+        nontrivial = True
+    if not case[4] and any(r and r[0][3][3] != 0 for r in out[1]):
+      nontrivial = True
+    for k in spec_kinds_of(case): ctx.hist('spec_kinds', k)
+    ctx.hist('steps_per_case', len(case[4]))
+  ctx.count(trlib.to_line(case), nontrivial=nontrivial, kind=kind.split(':')[0],
+            sample=dict(kind=kind, case=trlib.to_line(case)[:900]) if (sample_ok and nontrivial and kind == 'random' and len(ctx.samples) < 4) or len(ctx.samples) < 1 else None)
+  impl_outs.append(out)
+  return out
+
+def run(ctx):
+  ctx.build()
+  t0 = time.time()
+  rng = ctx.rng
+  quirks = D.quirk_flags()
+  ctx.extra['quirk_flags'] = dict(copy_drops_missing=quirks[0])
+  # --- open findings: replayed first (the model needs no flag for them: each lies outside its vocabulary or outside the theorems' hypotheses)
+  for name, case in open_witnesses().items():
+    case[0] = list(quirks)
+    orc = Oracle()
+    try:
+      run_case(case, after_step=orc, after_init=orc.after_init, guard=False)
+    except Exception as e:       # pylint: disable=broad-except
+      ctx.broken.append(dict(kind='driver-crash', name=type(e).__name__, detail='witness %s: %r' % (name, e)))
+    ctx.extra.setdefault('open_witnesses', {})[name] = [h[0] for h in orc.hits] or 'holds now'
+    for sig, what, step in orc.hits:
+      ctx.hit(sig, what, dict(case=trlib.to_line(case), step=step, guard=False, snippet=py_snippet(case, False)))
+  # --- cases for the correspondence (model vocabulary; the guard answers 'not applicable' on both sides for the rest)
+  cases, kinds, impl_outs = [], [], []
+  for name, (c, guard) in corpus().items():
+    c[0] = list(quirks)
+    if guard:
+      cases.append(c); kinds.append('corpus:' + name)
+    else:
+      run_one(ctx, c, 'corpus-oracle-only:' + name, False, [])
+  sweep = sweep_cases(rng)
+  keep = 1.0 if ctx.thorough else 0.2
+  for lab, c in sweep:
+    if rng.random() < keep:
+      c[0] = list(quirks); cases.append(c); kinds.append('sweep:' + lab)
+  ctx.extra['sweep'] = dict(total=len(sweep), run=sum(1 for k in kinds if k.startswith('sweep')), exhaustive=bool(ctx.thorough))
+  n = ctx.scale(900, 40000)
+  gens = [(TGen(rng, quirks), 'random', 0.6), (TGen(rng, quirks, p_invalid=0.5), 'random-invalid', 0.2),
+          (TGen(rng, quirks, focus={D.REBIND, D.DUPDATE, D.LEXTEND, D.LIADD, D.LIMUL, D.DCLEAR, D.LCLEAR, D.DPOP, D.LPOP, D.LDEL}), 'batch-and-removal', 0.2)]
+  for g, kind, w in gens:
+    for _ in range(int(n * w)):
+      cases.append(g.case(rng.choice([4, 8, 10, 12]))); kinds.append(kind)
+  for case, kind in zip(cases, kinds):
+    run_one(ctx, case, kind, True, impl_outs)
+  ctx.log('implementation ran %d cases in %.1fs' % (len(cases), time.time() - t0))
+  model_outs = ctx.model_run(cases)
+  diffs = {}
+  for c, a, b in zip(cases, impl_outs, model_outs):
+    if a != b:
+      diffs[id(c)] = describe_diff(c, a, b)
+  bad = ctx.compare('SymCoreTyped.run vs typed pg.Dict / pg.List / pg.Object (construction outcomes, result and snapshot with bound specs of every root after every step)',
+                    cases, impl_outs, model_outs, describe=lambda c: diffs.get(id(c)))
+  # --- oracle only: symbolic values written into typed containers, slice assignment, frozen containers (outside the model)
+  t1 = time.time()
+  wild = TGen(rng, quirks)
+  nw = ctx.scale(250, 8000)
+  for _ in range(nw):
+    run_one(ctx, wild.case(rng.choice([4, 8, 10]), wild=True), 'oracle-only', False, [], sample_ok=False)
+  ctx.log('oracle-only histories: %d in %.1fs' % (nw, time.time() - t1))
+  ctx.extra['corpus_cases'] = len(corpus())
+  # --- violation search when something is broken and the oracle has not hit: more histories biased to the op kinds that disagree
+  if ctx.is_broken() and not ctx.hits:
+    ops = set()
+    for i in bad[:50]:
+      d = diffs.get(id(cases[i])) or {}
+      ops |= {t for t, nm in OP_NAMES.items() if nm == d.get('op')}
+    g = TGen(rng, quirks, p_invalid=0.4, focus=ops or set(D.MUTATING))
+    for k in range(ctx.scale(1500, 12000)):
+      run_one(ctx, g.case(8, wild=(k % 2 == 1)), 'search', k % 2 == 0, [], sample_ok=False)
+      if ctx.hits: break
+
+def replay(ctx, rp):
+  c = rp['case']
+  case = trlib.parse_line(c['case'])
+  orc = Oracle()
+  run_case(case, after_step=orc, after_init=orc.after_init, guard=bool(c.get('guard', True)))
+  for h in orc.hits:
+    print('  still fails:', h[0], '|', h[1])
+  return not orc.hits
